@@ -277,6 +277,9 @@ var c06Hand = []string{
 	// builtins applied to the arrays of the (shared) input themselves, not to copies: they must only read them
 	"[.. | arrays | (join(\"-\")?, map(type))]", ".a | join(\",\")?", ".[0] | join(\"\")?", "[.. | arrays | join(\"-\")?] | length, ([.. | numbers] | add)", "[.. | arrays | join(\",\")?], [.. | scalars | type]",
 	"[.. | arrays | (add?, (min_by(.)?), (unique_by(.)?), (sort_by(.)?), (group_by(.)?), flatten, tojson, (@csv?), (@tsv?), (@sh?), (transpose?), reverse, to_entries, indices(1), index(1), (inside([1])?), (contains([1])?), any, all, ([tostream] | length), (implode?), (@json), (@html?), (tostring), (map(tostring) | join(\"\")), (first?), (last?), (.[1:] | join(\"/\")?), (sort?), (unique?), (min?), (max?), ([limit(2; .[])]), ([combinations?] | length), (to_entries | from_entries?), (with_entries(.)?), (ltrimstr(\"a\")?), (splits(\"a\")?), (@base64?), (@uri?), (getpath([0])?), ([paths] | length), (tojson | fromjson), (walk(.)), (del(.[0])), (.[0] = 9), (. + [1]), (. - [1]), (map(.)), (map_values(.)), (bsearch(1)?), (flatten(1)?), (range(length)), (has(0)), (keys), (length), (not), (type), (env | type))] | length",
+	// integer literals beyond 64 bits are pointers inside the shared Code: every operator must leave them alone
+	"[100000000000000000007 % (1000, 3, 7, 999999), (100000000000000000007 | abs, -(.), . + 1, . - 1, . * 2, . / 7, . % 7, length, tostring, tojson, floor, sqrt > 0)]", "[range(1000; 1040) as $i | 100000000000000000007 % $i, -100000000000000000007 % $i] | add",
+	"[limit(30; repeat(36893488147419103232 % 1000))] | unique", "[-36893488147419103232 | abs, ., (. % 5), (. - 1), -(.)], [18446744073709551616 | (. % 3), ., (. * -1), (. + 0)]", "reduce range(20) as $i (0; . + (100000000000000000007 % ($i + 2)) - (100000000000000000007 % ($i + 2)))",
 	// tables a Code fills on first use
 	"builtins | length", "[builtins] | .[0] | sort == .", "builtins | map(select(startswith(\"a\"))) | length", "[builtins, builtins] | .[0] == .[1]", "[.. | strings | test(\"a\"), test(\"b\"; \"i\"), test(\"c\"; \"g\")]", "[limit(5; builtins[])]", "env | type", "$ENV | type",
 	"[getpath([\"a\", \"b\"]), getpath([\"c\", 1])]", "[first(range(10)), last(range(10)), nth(3; range(10)), limit(2; range(10))]", "[splits(\"a\")?, ascii_downcase?, ltrimstr(\"a\")?, @base64?, @uri?, @html?, @sh?, @csv?, @tsv?, @json, @text]", "todate?, (now | type)", "input_line_number",
